@@ -189,6 +189,7 @@ class World:
         self.listeners = []     # callables(frame dict) at fabric time
         self.tx_listeners = []  # callables(node, src, dst, octets, seq) at emission
         self.outcome_hooks = []  # callables(seq) right after an outcome was handed to an application
+        self.outcome_tok_hooks = []  # callables(stack label, token) from INSIDE the application's outcome callback
         self.sim_seconds = 0.0
         self.max_delay_injected = 0.0
         self.total_delay_injected = 0.0
